@@ -66,8 +66,9 @@ OPASSIGN = {'add_assign': 1.0, 'sub_assign': -1.0}
 class Scan:
     """symbolic evaluation of the paths of one loop iteration"""
 
-    def __init__(self, f, header, body, item_site, tracked):
+    def __init__(self, f, header, body, item_site, tracked, enumerated=False):
         self.f, self.header, self.body, self.item_site, self.tracked = f, header, body, item_site, tracked
+        self.enumerated = enumerated
 
     def lin(self, e, state):
         e = strip_refs(e)
@@ -81,7 +82,13 @@ class Scan:
             return {ONE: v} if v else {}
         if e[0] == 'var' and e[1] in state:
             return dict(state[e[1]])
-        if e[0] == 'field' and e[2] == '0':
+        if e[0] == 'field' and e[2] in ('0', '1') and self.enumerated:
+            tup = strip_refs(e[1])
+            if tup[0] == 'field' and tup[2] == '0':
+                inner = strip_refs(tup[1])
+                if inner[0] == 'downcast' and inner[2] == 'Some' and strip_refs(inner[1])[0] == 'call' and strip_refs(inner[1])[3] == self.item_site:
+                    return {W: 1.0} if e[2] == '1' else {'j': 1.0}
+        if e[0] == 'field' and e[2] == '0' and not self.enumerated:
             inner = strip_refs(e[1])
             if inner[0] == 'downcast' and inner[2] == 'Some' and strip_refs(inner[1])[0] == 'call' and strip_refs(inner[1])[3] == self.item_site:
                 return {W: 1.0}
@@ -213,14 +220,17 @@ def analyse(f):
         raise Unrecognised('loop header does not advance an iterator')
     it_e = f.call_expr(ht, header)
     chain = [short(s[1]) for s in facts.walk(it_e) if s[0] == 'call']
-    if any(c in ('rev', 'skip', 'step_by', 'filter', 'take', 'chain', 'enumerate', 'zip', 'map', 'scan', 'skip_while', 'take_while') for c in chain):
-        if 'rev' in chain and not (set(chain) & {'skip', 'step_by', 'filter', 'take', 'chain', 'enumerate', 'zip', 'map', 'scan', 'skip_while', 'take_while'}):
+    enumerated = 'enumerate' in chain
+    chain_ = [c for c in chain if c != 'enumerate']
+    if any(c in ('rev', 'skip', 'step_by', 'filter', 'take', 'chain', 'zip', 'map', 'scan', 'skip_while', 'take_while') for c in chain_):
+        if 'rev' in chain_ and not (set(chain_) & {'skip', 'step_by', 'filter', 'take', 'chain', 'zip', 'map', 'scan', 'skip_while', 'take_while'}):
             reverse = True
         else:
             raise Unrecognised('iterator adaptors in the scan: %s' % chain)
     else:
         reverse = False
-    if 'slice' not in (ht['callee'].get('path') or '') and not reverse:
+    hp = ht['callee'].get('path') or ''
+    if 'slice' not in hp and 'Enumerate' not in hp and not reverse:
         raise Unrecognised('scan is not over a slice')
     item_site = (f.name, header)
     # tracked state: scalar multi-def locals written inside the loop (directly or by op-assign)
@@ -235,9 +245,9 @@ def analyse(f):
             if r and r[0][0] == 'var' and not r[1] and facts.SCALAR_TY.match(f.locals[r[0][1]]['ty']):
                 tracked.add(r[0][1])
     tracked.discard(0)
-    if not tracked:
+    if not tracked and not enumerated:
         raise Unrecognised('no scalar scan state')
-    sc = Scan(f, header, body, item_site, tracked)
+    sc = Scan(f, header, body, item_site, tracked, enumerated)
     paths = sc.paths()
     cont = [p for p in paths if p[0] == 'continue']
     brk = [p for p in paths if p[0] == 'break']
@@ -314,7 +324,21 @@ def analyse(f):
         return 'violated', 'the continue condition is not a positive multiple of  u - S_j  (%s) @ %s' % (form, where)
     # the returned index
     rets = q.multi_def_values(f, 0) or [(None, None, f.local_expr(0))]
+    brk_tb, exh_tb = brk[0][3], exh[0][3]
     for bi, cs, v in rets:
+        on_exh = bi is not None and (bi == exh_tb or f.dominates(exh_tb, bi)) and not (bi == brk_tb or f.dominates(brk_tb, bi))
+        if on_exh:
+            # value returned when every weight was passed: the number of weights (the counter, or len of the scanned slice)
+            vv = strip_refs(v)
+            if (vv[0] == 'call' and short(vv[1]) == 'len') or vv[0] == 'len':
+                continue
+            try:
+                rv_ = sc.lin(v, {l: {('x', l): 1.0} for l in tracked})
+            except Unrecognised:
+                raise
+            if subst(rv_) != {'j': 1.0}:
+                return 'violated', 'the value returned after passing every weight is  %s  instead of the number of weights @ %s' % (show_lin(subst(rv_)), f.where(bi))
+            continue
         rv = sc.lin(v, {l: {('x', l): 1.0} for l in tracked})
         # value returned when breaking at iteration j
         at_break = subst(l_add(rv, {}, 1.0))
